@@ -144,10 +144,11 @@ class FileFaults(object):
         self._created = []       # every netCDF4.Dataset opened through the seam (closed after each command)
 
     # -- plan -----------------------------------------------------------------
-    def arm_open_error(self, base, nth, err, mode="r", seam="open"):
+    def arm_open_error(self, base, nth, err, mode="r", seam="open", persistent=False):
         # seam: "open" = builtins.open (text inputs, config files), "dataset" = netCDF4.Dataset
+        # persistent: every read-open of the path fails, on both seams (the file is unreadable)
         self.plan.append({"kind": "open_error", "file": base, "nth": nth, "errno": err, "mode": mode, "count": 0,
-                          "seam": seam})
+                          "seam": seam, "persistent": persistent})
 
     def arm_read_error(self, base, after_lines):
         self.plan.append({"kind": "read_error", "file": base, "after": after_lines})
@@ -202,7 +203,10 @@ class FileFaults(object):
                 for f in list(self.plan):
                     if f["file"] != base:
                         continue
-                    if f["kind"] == "open_error" and f.get("seam", "open") == "open" and (("w" in mode) == ("w" in f.get("mode", "r"))):
+                    if f["kind"] == "open_error" and f.get("persistent") and "w" not in mode and "a" not in mode:
+                        self._fire(f)
+                        raise OSError(self.ERRNOS[f["errno"]], os.strerror(self.ERRNOS[f["errno"]]) + " (injected)", file)
+                    if f["kind"] == "open_error" and not f.get("persistent") and f.get("seam", "open") == "open" and (("w" in mode) == ("w" in f.get("mode", "r"))):
                         f["count"] += 1
                         if f["count"] == f["nth"]:
                             self.plan.remove(f)
@@ -228,6 +232,9 @@ class FileFaults(object):
             if tracked:
                 self._note_open(base)
                 for f in list(self.plan):
+                    if f["file"] == base and f["kind"] == "open_error" and f.get("persistent"):
+                        self._fire(f)
+                        raise OSError(self.ERRNOS[f["errno"]], os.strerror(self.ERRNOS[f["errno"]]) + " (injected)", filename)
                     if f["file"] == base and f["kind"] == "open_error" and f.get("seam") == "dataset":
                         f["count"] += 1
                         if f["count"] == f["nth"]:
